@@ -33,7 +33,7 @@ pub const EXTS: [(&str, &str); 16] = [
 ];
 const OMITTABLE: [&str; 3] = ["html", "txt", "json"];
 const DOTTED: [&str; 3] = [".html", ".txt", ".json"];
-const NAMES: [&str; 14] = ["a", "ab", "index", "data", "x.y", "a-b", "a_b", "0", "A", "users", "page.html", "a.txt", "index.html", "x.json"];
+const NAMES: [&str; 17] = ["a", "ab", "index", "data", "x.y", "a-b", "a_b", "0", "A", "users", "page.html", "a.txt", "index.html", "x.json", "reindex", "x_index", "a-index"];
 const DIRS: [&str; 5] = ["d", "sub", "assets", "a", "x-1"];
 
 #[derive(Debug, Clone, Serialize, Deserialize, PartialEq)]
@@ -238,7 +238,7 @@ static CASE_NO: std::sync::atomic::AtomicU64 = std::sync::atomic::AtomicU64::new
 impl Property for C19 {
     type Case = Case;
     const ID: &'static str = "C19";
-    const RULE: &'static str = "generated: directory trees on a scratch file system (depth ≤ 3, ≤ 12 files, names over the route alphabet, all 16 supported extensions, empty/text/binary contents, index.html at any level), mount route of depth 0–2, omit_extensions ⊆ {html, txt, json} in the plain or the dotted spelling, file names that themselves end in an extension (`page.html.html`, `index.html.txt`), × up to 30 requests (each file, each directory with and without trailing slash, two trailing slashes, the omitted extension put back or left out, .. / %2e%2e / %2F / // variants, near-miss names, a file outside the directory, other methods). Oracle: model map route → (bytes, MIME) computed from the tree; trees in which two files map to one route must be refused at start-up. Non-trivial tree = has a sub-directory and an index.html or an omitted extension; distinct by (tree, settings, request).";
+    const RULE: &'static str = "generated: directory trees on a scratch file system (depth ≤ 3, ≤ 12 files, names over the route alphabet, all 16 supported extensions, empty/text/binary contents, index.html at any level), mount route of depth 0–2, omit_extensions ⊆ {html, txt, json} in the plain or the dotted spelling, file names that themselves end in an extension (`page.html.html`, `index.html.txt`) or end in `index` (`reindex.html`), × up to 30 requests (each file, each directory with and without trailing slash, two trailing slashes, the omitted extension put back or left out, .. / %2e%2e / %2F / // variants, near-miss names, a file outside the directory, other methods). Oracle: model map route → (bytes, MIME) computed from the tree; trees in which two files map to one route must be refused at start-up. Non-trivial tree = has a sub-directory and an index.html or an omitted extension; distinct by (tree, settings, request).";
     const ASSUMPTIONS: &'static [&'static str] = &[
         "entries are regular files with a supported extension, text files are UTF-8, names are valid route segments, directory names carry no dot (documented restrictions of Dir)",
         "with html omitted, `<dir>/index` may or may not answer (the statement names only the directory path)",
